@@ -1,12 +1,75 @@
 /-
-  C02 — unsigned division and remainder are exact (placeholder while the pipeline is brought up)
+  C02 — unsigned division and remainder are exact.
+  Property theorems only (helper lemmas live in CB/Lemmas/C02*.lean).  Every theorem quantifies over
+  all limb counts (list lengths) and all operand values.
+
+  Hypothesis carried by `_partial` theorems:
+    H_recip (`CB.Div.HRecip`): `reciprocalImpl d = reciprocalSpec d` for every `B/2 ≤ d < B`
+      (the 64-bit Newton iteration of `reciprocal`; a 2^63-element domain, exercised by the
+      correspondence run through `Reciprocal::new`'s Debug output, not proved).
+  H_qhat of DESIGN.md is PROVED here (`div3by2_exact`, `qhat_within_one`).
 -/
-import CB.Lemmas.Chains
-import CB.Model.Div
+import CB.Lemmas.C02LimbDiv
+import CB.Lemmas.C02Rows
+import CB.Lemmas.C02Div3by2
 namespace CB.P02
 open CB CB.Div
 
-theorem mulhilo_exact (x y : Nat) : (mulhilo x y).2 + B * (mulhilo x y).1 = x * y := by
-  simp only [mulhilo]; exact Nat.mod_add_div _ _
+/-- T02.1a multiply-subtract row (`mac` + `sbb` per limb): exact value equation with carry and borrow. -/
+theorem mulSubRow_exact {xs ys : List Nat} {quo carry borrow : Nat} (hx : WF xs) (hy : WF ys)
+    (hq : quo < B) (hc : carry < B) (hb : borrow < B) (hl : xs.length = ys.length) :
+    val (mulSubRow xs ys quo carry borrow).1 + quo * val ys + carry + borrow / HALF =
+      val xs + B ^ xs.length * ((mulSubRow xs ys quo carry borrow).2.1 + (mulSubRow xs ys quo carry borrow).2.2 / HALF) ∧
+    (mulSubRow xs ys quo carry borrow).2.1 < B ∧ (mulSubRow xs ys quo carry borrow).2.2 < B ∧
+    WF (mulSubRow xs ys quo carry borrow).1 ∧ (mulSubRow xs ys quo carry borrow).1.length = xs.length :=
+  mulSubRow_spec hx hy hq hc hb hl
+
+/-- T02.1b masked add-back row. -/
+theorem addBackRow_exact {xs ys : List Nat} {carry : Nat} (p : Bool) (hx : WF xs) (hy : WF ys)
+    (hl : xs.length = ys.length) :
+    val (addBackRow xs ys (mask p) carry).1 + B ^ xs.length * (addBackRow xs ys (mask p) carry).2 =
+      val xs + (if p then val ys else 0) + carry ∧
+    WF (addBackRow xs ys (mask p) carry).1 ∧ (addBackRow xs ys (mask p) carry).1.length = xs.length :=
+  addBackRow_spec p hx hy hl
+
+/-- T02.2 `div2by1` (Möller–Granlund Algorithm 4 with both masked corrections and wrapping
+    arithmetic) is exact whenever the stored reciprocal is `⌊(B²−1)/d⌋ − B`. -/
+theorem div2by1_correct {rc : Reciprocal} {u1 u0 : Nat}
+    (hd1 : HALF ≤ rc.divisorNormalized) (hd2 : rc.divisorNormalized < B)
+    (hv : rc.reciprocal = reciprocalSpec rc.divisorNormalized)
+    (hu1 : u1 < rc.divisorNormalized) (hu0 : u0 < B) :
+    div2by1 u1 u0 rc = ((u1 * B + u0) / rc.divisorNormalized, (u1 * B + u0) % rc.divisorNormalized) :=
+  div2by1_exact hd1 hd2 hv hu1 hu0
+
+/-- T02.5 (H_qhat, proved) `div3by2` returns `min(⌊(u2 B² + u1 B + u0)/(v1 B + v0)⌋, B − 1)`:
+    the `q_maxed` cap and the two correction rounds on the wide remainder. -/
+theorem div3by2_correct {rc : Reciprocal} {u2 u1 u0 v0 : Nat}
+    (hd1 : HALF ≤ rc.divisorNormalized) (hd2 : rc.divisorNormalized < B)
+    (hv : rc.reciprocal = reciprocalSpec rc.divisorNormalized)
+    (hu2 : u2 ≤ rc.divisorNormalized) (hu1 : u1 < B) (hu0 : u0 < B) (hv0 : v0 < B) :
+    div3by2 u2 u1 u0 rc v0 =
+      min (((u2 * B + u1) * B + u0) / (rc.divisorNormalized * B + v0)) (B - 1) :=
+  div3by2_exact hd1 hd2 hv hu2 hu1 hu0 hv0
+
+/-- T02.4 (row part) one Knuth digit: given the true digit `q` of the window and an estimate
+    `quo ∈ {q, q+1}`, multiply-subtract + borrow test + masked add-back leave exactly `W − q·Y`, and the
+    mask says whether the estimate was one too large (so the decrement yields `q`). -/
+theorem knuth_row_exact {xs ys : List Nat} {xHi quo q : Nat} (hx : WF xs) (hy : WF ys)
+    (hl : xs.length = ys.length) (hxHi : xHi < B) (hq : quo < B)
+    (hlo : q * val ys ≤ val xs + B ^ xs.length * xHi)
+    (hhi : val xs + B ^ xs.length * xHi < (q + 1) * val ys)
+    (hest : quo = q ∨ quo = q + 1) :
+    val (knuthRow xs ys xHi quo).1 + q * val ys = val xs + B ^ xs.length * xHi ∧
+    (knuthRow xs ys xHi quo).2 = mask (decide (quo = q + 1)) ∧
+    WF (knuthRow xs ys xHi quo).1 ∧ (knuthRow xs ys xHi quo).1.length = xs.length :=
+  knuthRow_spec hx hy hl hxHi hq hlo hhi hest
+
+/-- T02.3 single-limb division through the reciprocal: exact for EVERY limb count and every
+    non-zero limb divisor, including normalisation shift 0 and the final un-shift (given H_recip). -/
+theorem divRemLimb_exact_partial (H_recip : HRecip) {d : Nat} (hd0 : 0 < d) (hd : d < B)
+    {u : List Nat} (hu : WF u) :
+    (divRemLimb u d).1 = toLimbs u.length (val u / d) ∧ (divRemLimb u d).2 = val u % d ∧
+    remLimb u d = val u % d :=
+  divRemLimb_spec H_recip hd0 hd hu
 
 end CB.P02
